@@ -8,8 +8,10 @@ FUNCTIONS = SAP_ALLOC + SAP_START + SAP_DEMUX + SAP_ANSWER + [P + "ServerSSM.ind
              P + "ClientSSM.confirmation[AWAIT_CONFIRMATION, Abort]", P + "ClientSSM.process_task[SEGMENTED_CONFIRMATION]"] + SERVER_ANSWER
 LEMMAS = []
 MIN_OBLIGATIONS = 60
-BOUNDED = None
+BOUNDED = "bounded.c11"
 ASSUMPTIONS = SSM_ASSUMPTIONS + [
+    "whole-system complement: several real stacks over the same wire (bounded stage): 1..40 concurrent requests over 1..4 peers, equal invoke IDs across peers, late / duplicate / foreign replies, > 256 requests in sequence",
+] + [
     "bounded in structure: the access point's lists hold up to 3 live transactions (2 + 2 for the demultiplexing block) with symbolic invoke IDs over 2 peers, the inbound PDU comes from one of 3 peers with any invoke ID; the listed transactions are sidecar subclasses of the real ClientSSM / ServerSSM whose entry points record the delivery (the state machines are under contract in contracts.ssm)",
     "StateMachineAccessPoint.confirmation is verified as a block contract on everything after `apdu.decode(pdu)` (decoding is C02)",
 ]
